@@ -142,7 +142,7 @@ where
         // return a value for every component within the registry.
         unsafe { identifier_iter.next().unwrap_unchecked() } {
             // TODO: Better error messages?
-            let component_column = seq
+            let mut component_column = ManuallyDrop::new(seq
                 .next_element_seed(DeserializeColumn::<C>::new(length))?
                 .ok_or_else(|| {
                     de::Error::invalid_length(
@@ -158,8 +158,11 @@ where
                         })
                         .as_str(),
                     )
-                })?;
-            components.push((component_column.0.cast::<u8>(), component_column.1));
+                })?);
+            components.push((
+                component_column.as_mut_ptr().cast::<u8>(),
+                component_column.capacity(),
+            ));
         }
 
         // SAFETY: Since one bit was consumed from `identifier_iter`, it still has the same number
@@ -188,6 +191,8 @@ where
         R_: Sealed<'de>,
         V: SeqAccess<'de>,
     {
+        // The column a component was pushed to by this call, if any.
+        let mut pushed_column = None;
         if
         // SAFETY: `identifier_iter` is guaranteed by the safety contract of this method to
         // return a value for every component within the registry.
@@ -225,6 +230,7 @@ where
             })?);
             component_column.0 = v.as_mut_ptr().cast::<u8>();
             component_column.1 = v.capacity();
+            pushed_column = Some(*component_column);
 
             components =
                 // SAFETY: `components` is guaranteed to have the same number of values as there
@@ -250,7 +256,7 @@ where
         // Furthermore, regardless of whether the bit was set or not, `R` is one component smaller
         // than `(C, R)`, and since `identifier_iter` has had one bit consumed, it still has the
         // same number of bits remaining as `R` has components remaining.
-        unsafe {
+        let result = unsafe {
             R::deserialize_components_by_row(
                 components,
                 length,
@@ -259,7 +265,23 @@ where
                 current_index + 1,
                 identifier,
             )
+        };
+
+        if result.is_err() {
+            if let Some((pointer, capacity)) = pushed_column {
+                // The row could not be completed, so the component pushed above is removed again.
+                // Otherwise it would never be dropped, as the columns are only valid up to
+                // `length`.
+                let mut v = ManuallyDrop::new(
+                    // SAFETY: The pointer and capacity define a valid `Vec<C>` of length
+                    // `length + 1`, since a component was pushed to it above.
+                    unsafe { Vec::<C>::from_raw_parts(pointer.cast::<C>(), length + 1, capacity) },
+                );
+                v.pop();
+            }
         }
+
+        result
     }
 
     unsafe fn expected_row_component_names<R_>(
